@@ -7,7 +7,7 @@ GO_ENV = "export GOFLAGS=-mod=mod GOPROXY=off GOSUMDB=off GOTOOLCHAIN=local"
 # id -> (technique, level text, level note, design ref)
 CLAIMS = {
  "C01": ("exhaustive enumeration + rapid PBT vs exact-rational FIRST model",
-         "All 2 x 2,592 version/base combinations are decoded by each of the three decoders and compared with the FIRST base equations evaluated in exact rational arithmetic (a complete enumeration of the finite score domain); token order, nil receivers and optional-metric decoration are explored by rapid (20k quick / 200k thorough) and by 64 hash-seeded presentation variants per combination in the thorough tier.",
+         "All 2 x 2,592 version/base combinations are decoded by each of the three decoders and compared with the FIRST base equations evaluated in exact rational arithmetic (a complete enumeration of the finite score domain); token order, nil receivers and optional-metric decoration are explored by rapid (64k quick / 1M thorough) and by 64 hash-seeded presentation variants per combination in the thorough tier; every observation is repeated after the object's higher-level scores have been queried.",
          "Trusted: reference tables/equations in harness/spec (written from the FIRST documents, self-tested against their worked examples and the repository's pinned literals), math/big, binding of codes to library constants by exported name.",
          "DESIGN.md section 6, C01"),
  "C02": ("exhaustive enumeration + rapid PBT vs exact integer temporal equation",
@@ -15,7 +15,7 @@ CLAIMS = {
          "Trusted: as C01; both Roundup readings (v3.0 wording, v3.1 Appendix A) are evaluated and their agreement on the domain is re-measured every run.",
          "DESIGN.md section 6, C02"),
  "C03": ("exhaustive enumeration (effective metrics x temporal; thorough: full 1.1e10 product) + seeded sampling + rapid PBT vs exact-rational model",
-         "Layer 1 enumerates all 33,177,600 effective-metric x temporal objects (every Modified metric defined, base metrics disagreeing) against the exact environmental equations; layer 2 checks the fall-back resolution on the version x base x environmental product (3,000,000 distinct seeded points quick, all 11,466,178,560 thorough); layer 3 sends rapid-generated vectors through the environmental decoder.",
+         "Layer 1 enumerates all 33,177,600 effective-metric x temporal objects (every Modified metric defined, base metrics disagreeing) against the exact environmental equations; layer 2 checks the fall-back resolution on the version x base x environmental product (16,000,000 distinct seeded points quick, all 11,466,178,560 thorough); layer 3 sends rapid-generated vectors through the environmental decoder (64k / 1M); layer 4 decodes, for every version x base combination, the vector whose Modified metrics restate the base metrics and its one-step variants. A mismatch on a reused object that a fresh object does not reproduce is reported as an assign / score / assign / score history.",
          "Trusted: as C01 plus the reference resolution (Modified X -> base value, MS selecting formula and PR table). Objects in layers 1-2 are built from the exported constructor and exported-field assignment, which the property names as an observation point.",
          "DESIGN.md section 6, C03"),
  "C04": ("exhaustive enumeration + rapid PBT vs exact-rational v2 model with admissible-tenth sets",
@@ -23,15 +23,15 @@ CLAIMS = {
          "Trusted: reference v2 tables/equations (harness/spec, pinned to the v2 guide's examples); known_findings.json is committed and never written at run time.",
          "DESIGN.md sections 6 (C04) and 7"),
  "C05": ("exhaustive field sweep (thorough: all 1.41e8) + seeded decode sample + rapid PBT vs exact-rational v2 environmental model",
-         "Quick: all 729 x 64 x 30 objects with the temporal group absent plus the 73,629 group-absent vectors, 200,000 distinct seeded full vectors through Decode and 5,000 rapid vectors; thorough: the complete 141,441,309 product by field assignment on decoded shape templates plus 2,000,000 decoded vectors. Admissible sets cover exact halves and the negative-equation allowance; KF-1/KF-2 inputs are excused only on exact propagation of the listed wrong tenth.",
+         "Quick: all 729 x 64 x 30 objects with the temporal group absent plus the 73,629 group-absent vectors, 800,000 distinct seeded full vectors through Decode and 16,000 rapid vectors; thorough: the complete 141,441,309 product by field assignment on decoded shape templates plus 2,000,000 decoded vectors. Admissible sets cover exact halves and the negative-equation allowance; KF-1/KF-2 inputs are excused only on exact propagation of the listed wrong tenth.",
          "Trusted: as C04; field assignment on a decoded object is equivalent to decoding the corresponding vector (cross-checked by the decode stage and by C09).",
          "DESIGN.md sections 6 (C05) and 7"),
  "C06": ("exhaustive enumeration / seeded sampling with integer grid and band oracle",
-         "Every level of every object in the finite domains of C01-C05 (quick: complete v3 base x temporal, effective environmental domain at 4 temporal settings, 2,000,000 sampled full environmental points, complete v2 base x temporal and the temporal-absent environmental sweep; thorough: all 33,177,600 and all 141,441,309) must score exactly k/10 with 0 <= k <= 100 and report the severity band of k; attained tenths and band edges are reported per level.",
+         "Every level of every object in the finite domains of C01-C05 (quick: complete v3 base x temporal, effective environmental domain at 4 temporal settings, 8,000,000 sampled full environmental points, complete v2 base x temporal and the temporal-absent environmental sweep; thorough: all 33,177,600 and all 141,441,309) must score exactly k/10 with 0 <= k <= 100 and report the severity band of k; attained tenths and band edges are reported per level.",
          "Trusted: band tables transcribed from the property; the v2 negative-equation exception is decided by C05's exact model; -0.0 accepted as 0.",
          "DESIGN.md section 6, C06"),
  "C07": ("bounded-exhaustive token neighbourhood + rapid PBT + native coverage-guided fuzzing vs reference recogniser",
-         "The three v3 decoders are compared with a hand-written reference recogniser on ~300,000 single-token edits of 6 representative vectors (complete over a ~680 token vocabulary x every position), 180,000 (quick) / 1,000,000 (thorough) rapid cases (valid vectors of every level at every decoder, classified mutations, single-defect inputs, arbitrary strings) and, in the thorough tier, 120 s of native fuzzing with the oracle inside the target.",
+         "The three v3 decoders are compared with a hand-written reference recogniser on ~350,000 single-token edits of 6 representative vectors (complete over a ~680 token vocabulary x every position; thorough: also token pairs), ~44,000 constructed shapes (token floods at counts around powers of two, boundary-length tokens, full-width / look-alike / invisible / truncation-alias characters at every position, values made of several codes, token and block moves, dense multi-byte text, runs of one special byte), 1,000,000 (quick) / 4,000,000 (thorough) rapid cases (valid vectors of every level at every decoder, 16 classified edit kinds, single-defect inputs, arbitrary strings and raw bytes; decoders from constructors, nil receivers, constructors queried before Decode, and decoders primed by an earlier decode) and, in the thorough tier, 300 s of native fuzzing with the oracle inside the target.",
          "Trusted: reference recogniser written from the property text. The string language is infinite: this is exploration with measured class coverage, not exhaustion.",
          "DESIGN.md section 6, C07"),
  "C08": ("bounded-exhaustive token neighbourhood + rapid PBT + native fuzzing vs anchored regular expressions",
@@ -39,35 +39,35 @@ CLAIMS = {
          "Trusted: the regular expressions; exploration, not exhaustion, of the string language.",
          "DESIGN.md section 6, C08"),
  "C11": ("bounded-exhaustive single-defect enumeration + rapid PBT + native fuzzing vs defect-set classifier",
-         "Every rejection must match exactly one exported sentinel under errors.Is, and that sentinel must be in the set of defects the reference classifier finds in the input; for ~20,000 constructed single-defect inputs (every kind x every token x every position over 12 representative vectors at every covering decoder) and for rapid single-defect inputs the sentinel must be exactly the constructed kind.",
+         "Every rejection must match exactly one exported sentinel under errors.Is, and that sentinel must be in the set of defects the reference classifier finds in the input; for ~22,000 constructed single-defect inputs (every kind x every token x every position over 12 representative vectors at every covering decoder) and for rapid single-defect inputs the sentinel must be exactly the constructed kind; plus the ~80,000 constructed shapes of C07/C08, 320k / 3M rapid strings and 300 s native fuzzing (thorough).",
          "Trusted: classifier (superset semantics for multi-defect inputs, so any scan order of a correct decoder passes); single-defect inputs are single by construction.",
          "DESIGN.md section 6, C11"),
  "C12": ("rapid PBT + object-state enumeration + native fuzzing with recover() and exclusivity oracle",
-         "Arbitrary strings (100k quick / 1M thorough, up to 64 KiB, plus eight 1-4 MiB constructed inputs and 180 s native fuzzing in the thorough tier) at all six decoders via constructor and nil receiver: no panic, exactly one of (object, error); every observer on returned objects, left-over receivers, nil receivers and fresh objects never panics; every one-field-reset state of generated accepted vectors must yield GetError != nil, Encode error and Score 0 at every view whose level includes the field.",
+         "Arbitrary strings (320k quick / 3M thorough, up to 64 KiB, ~80,000 constructed shapes, plus eight 1-4 MiB constructed inputs and 600 s native fuzzing in the thorough tier) at all six decoders via constructor and nil receiver: no panic, exactly one of (object, error); every observer on returned objects, left-over receivers, nil receivers and fresh objects never panics; every one-field-reset state of generated accepted vectors (8k / 100k vectors, reset before or after a first query) must yield GetError != nil, Encode error and Score 0 at every view whose level includes the field; further Decode calls on left-over receivers must not panic either.",
          "Trusted: zero value of each exported enumeration field is its unknown/invalid constant; v2 IsEmpty() on nil receivers is outside the property's observation list.",
          "DESIGN.md section 6, C12"),
  "C09": ("deterministic sweeps + rapid PBT vs reference token map; permutation / X-vs-omitted metamorphic twins",
-         "Every exported field of every decoded object (read by reflection on the field name) must be the exported constant of the value written for that metric; unwritten v3 optional metrics must be Not Defined, v2 groups must report IsEmpty() correctly; the canonical spelled-out twin and the canonical defined-only twin of every v3 vector must give an identical snapshot (fields, scores, severities, encodings at every level). Sweeps: every metric x code x token position, all 2^14 optional-metric subsets, every v2 metric x code x group shape (thorough: all 8! base-token orders of 4 vectors); rapid 100k / 1M vectors.",
+         "Every exported field of every decoded object (read by reflection on the field name) must be the exported constant of the value written for that metric; unwritten v3 optional metrics must be Not Defined, v2 groups must report IsEmpty() correctly; the canonical spelled-out twin and the canonical defined-only twin of every v3 vector must give an identical snapshot (fields, scores, severities, encodings at every level). Sweeps: every metric x code x token position, all 2^14 optional-metric subsets, block moves and group orders, every v2 metric x code x group shape (thorough: all 8! base-token orders of 4 vectors); rapid 320k / 3M vectors.",
          "Trusted: reference tokenizer and the name binding of constants; the accepted-vector language itself is C07/C08's subject.",
          "DESIGN.md section 6, C09"),
  "C10": ("deterministic sweeps + rapid PBT vs reference canonical encoder; round-trip",
-         "Encode() must return (canonical text, nil) with the canonical text computed by a reference encoder (v3: prefix, specification order, every optional metric of the object's level spelled out; v2: byte-identical input), String() must equal Encode(), and decoding the encoding with the same decoder must give an identical snapshot. Same sweeps and rapid budgets as C09.",
+         "Encode() must return (canonical text, nil) with the canonical text computed by a reference encoder (v3: prefix, specification order, every optional metric of the object's level spelled out; v2: byte-identical input), String() must equal Encode(), decoding the encoding with the same decoder must give an identical snapshot, and encodings held while other objects are encoded must not change. Same sweeps and rapid budgets as C09.",
          "Trusted: reference canonical encoder written from the property statement.",
          "DESIGN.md section 6, C10"),
  "C14": ("deterministic sweeps + rapid PBT; differential against independent lower-level decodes of the reference projection",
-         "For every accepted temporal / environmental vector, BaseMetrics() / TemporalMetrics() (and the base view of the temporal view) must agree in score, severity, encoding and encoding error with NewBase / NewTemporal decodes of the vector's base and base+temporal projections computed by the reference tokenizer; accessors must be non-nil and, for v2, be the exported embedded objects.",
+         "For every accepted temporal / environmental vector, BaseMetrics() / TemporalMetrics() (and the base view of the temporal view) must agree in score, severity, encoding and encoding error with NewBase / NewTemporal decodes of the vector's base and base+temporal projections computed by the reference tokenizer; accessors must be non-nil and, for v2, be the exported embedded objects; every case is evaluated in both query orders (views first / top-level object first), and the complete v2 base x temporal domain is compared through the environmental decoder.",
          "Trusted: reference projection. Same sweeps and rapid budgets as C09, restricted to temporal and environmental decoders.",
          "DESIGN.md section 6, C14"),
  "C15": ("model-based PBT: generated operation sequences with a fresh-twin oracle",
-         "rapid generates 1-40 step sequences (observer queries on every level view, full observations, report construction/export, exported-field assignments, noise decodes of other vectors) over objects from all six decoders on valid, mutated and arbitrary inputs (decoded objects and failed-decode receivers). After every step the object must equal a never-queried twin rebuilt from its recipe, the twin must equal the twin built before the history, a plain re-decode of the input must equal the first one, and repeated queries must agree; every code of every parser is parsed 200 times. 3,000 sequences quick, 60,000 thorough.",
+         "rapid generates 1-40 step sequences (observer queries on every level view, full observations, report construction/export incl. a held report and option-less reports, exported-field assignments observed immediately, further Decodes on successfully decoded subjects, noise decodes of other vectors) over subjects from all six decoders: decoded objects, failed-decode receivers, constructors queried before Decode, objects built from fields alone, v2 objects with optional fields assigned before Decode; valid, mutated and arbitrary inputs. After every step the object must equal a never-queried twin rebuilt from its recipe, the twin must equal the twin built before the history, a plain re-decode of the input must equal the first one, a fixed template list exported from a fresh decode must render as before the history, and repeated queries must agree; every code of every parser is parsed 200 times; a query / assign / query sweep covers every field. 16,000 sequences quick, 300,000 thorough.",
          "Only observable state (exported fields, query results, report structs) is compared. Histories are sampled, not exhausted.",
          "DESIGN.md section 6, C15"),
  "C16": ("PBT of concurrent workloads under the Go race detector + sequential-equivalence oracle",
-         "The test binary is built with -race. Every process starts with a cold-start storm (16 goroutines issuing identical decode / query / report / export operations before anything has warmed lazily initialised state), then rapid workloads (pool of valid and invalid vectors, 2-16 goroutines x up to 50 operations on own and shared objects, GOMAXPROCS 2/4/16, generated yield points) run concurrent-first; the race runtime's log must not grow and every result must equal the sequential result computed afterwards on the same objects. 16 processes; 480 workloads quick, 8,000 thorough. A process killed by the runtime (concurrent map access) is reported with the workload that was running.",
+         "The test binary is built with -race. Every process starts with a cold-start storm (16 goroutines issuing identical decode / query / report / export operations before anything has warmed lazily initialised state), then rapid workloads (pool of valid and invalid vectors, 2-16 goroutines x up to 50 operations on own and shared objects — shared objects are freshly decoded, decoded then assigned, or built from fields, always finished before the goroutines start —, 12 language tags, 9 templates incl. conflicting defines and invalid ones, held export readers, GOMAXPROCS 2/4/16, generated yield points) run concurrent-first; the race runtime's log must not grow and every result must equal the sequential result computed afterwards on the same objects. 16 processes; 1,600 workloads quick, 24,000 thorough. A process killed by the runtime (concurrent map access) is reported with the workload that was running.",
          "Schedules are sampled, not enumerated: the harness does not own the Go scheduler. The race detector supplies the order-independent part (happens-before races are reported whenever both accesses execute). A bug that needs one specific interleaving and is invisible to the race detector could be missed.",
          "DESIGN.md section 6, C16"),
  "C17": ("complete one-metric sweep + rapid PBT vs hand-written wiring table",
-         "For (vector x report level x language) every report field is compared with the localised title / value name of exactly the metric it is named after (object field read by reflection), version label, each level's Encode(), decimal rendering of each level's score and each level's severity, through the report itself and through the embedded reports; any language other than en/ja must equal the English report. Vectors are biased so that C/I/A, MC/MI/MA and CR/IR/AR are pairwise different; precondition (titles pairwise distinct) re-checked each run. 20k quick / 300k thorough.",
+         "For (vector x report level x language) every report field is compared with the localised title / value name of exactly the metric it is named after (object field read by reflection), version label, each level's Encode(), decimal rendering of each level's score and each level's severity, through the report itself and through the embedded reports; any language other than en/ja must equal the English report. Vectors are biased so that C/I/A, MC/MI/MA and CR/IR/AR are pairwise different; precondition (titles pairwise distinct) re-checked each run. Reports are read after decoy reports in other languages were built; several language options and their order, regional and script variants of ja/en first in a cold process (odd shards), and a second report from the same object are covered. 80k quick / 1M thorough.",
          "Trusted: names package as dictionary (C18 checks it).",
          "DESIGN.md section 6, C17"),
  "C18": ("exhaustive box enumeration + rapid PBT with totality / injectivity / fallback relations",
@@ -75,15 +75,15 @@ CLAIMS = {
          "Trusted: the Unknown literals pinned by the repository's own tests; tags whose language subtag is en/ja but which are not exactly en/ja are skipped as unspecified.",
          "DESIGN.md section 6, C18"),
  "C19": ("grammar-based rapid PBT + native fuzzing; differential against text/template plus reflection model",
-         "Templates from a grammar (literals, fields of all three levels and embedded paths, pipelines, control structures, variables, define/template/block, invalid forms) x report level x language x reader kind (string, bytes.Reader, one-byte, half, data-with-EOF, failing after k bytes, nil interface) x nil reports: output must be byte-identical to text/template's on the same value, every failure must match the invalid-template (or null-pointer) sentinel with a nil reader; an independent reflection model decides literal + plain-field templates. 20k quick / 300k thorough + 120 s native fuzzing of the template bytes.",
+         "Templates from a grammar (literals, fields of all three levels and embedded paths, pipelines, control structures, variables, define/template/block, invalid forms) x report level x language x reader kind (string, bytes.Reader, one-byte, half, data-with-EOF, partially consumed strings / bytes / bufio / section / buffer readers, failing after k bytes with one of eight real-world error values with or without data, nil interface) x nil reports, with a second export made before the first reader is read: output must be byte-identical to text/template's on the same value, every failure must match the invalid-template (or null-pointer) sentinel with a nil reader; an independent reflection model decides literal + plain-field templates. 80k quick / 1M thorough + 300 s native fuzzing of the template bytes; templates up to > 1 MiB.",
          "Trusted: the toolchain's text/template as rendering reference (as the property states). Templates with call cycles or > 1 MiB output are skipped and counted.",
          "DESIGN.md section 6, C19"),
  "C20": ("exhaustive table enumeration + bounded-exhaustive short strings + rapid PBT vs reference tables",
-         "For all 22 v3 and 14 v2 metrics: every code parses to the exported constant of that name and prints back, the unknown value prints empty and is separated from every defined value by the validity predicate, every weight equals the specification's decimal (PR per scope; every Modified metric at every own value x every base value; MPR over all MS x S x MPR x PR combinations), integers in [-8, max+8] never panic and print empty; every string of length <= 3 over a 28-character alphabet plus rapid strings must parse to unknown unless it is a code; version label parser/printers (v3/metric and legacy v3/version) are mutually inverse on {3.0, 3.1}.",
+         "For all 22 v3 and 14 v2 metrics: every code parses to the exported constant of that name and prints back, the unknown value prints empty and is separated from every defined value by the validity predicate, every weight equals the specification's decimal (PR per scope; every Modified metric at every own value x every base value; MPR over all MS x S x MPR x PR combinations), integers in [-8, max+8] and wide integers aliasing defined values under 8/16/32-bit truncation never panic, print empty and weigh what the unknown value weighs; every string of length <= 3 over a 28-character alphabet, an ASCII character next to every two-byte rune (thorough: every valid UTF-8 string of at most 3 bytes, 2,668,539 per parser), long strings with a code prefix and rapid strings must parse to unknown unless they are a code; version label parser/printers (v3/metric and legacy v3/version) are mutually inverse on {3.0, 3.1}.",
          "Trusted: reference tables transcribed from the FIRST documents; float equality is sound because both sides are the nearest double of the same decimal literal.",
          "DESIGN.md section 6, C20"),
  "C13": ("exhaustive enumeration with metamorphic (library-vs-library) oracle",
-         "All 518,400 v3 vectors (temporal <= base; all-X temporal == base; all-X environmental == temporal except v3.1 with S:C), all 5,184 base vectors through the environmental decoder with X omitted and spelled out, all 73,629 v2 vectors, and the v2 Target Distribution None slice (1,000,000 distinct seeded points quick, all 28,273,536 thorough).",
+         "All 518,400 v3 vectors (temporal <= base; all-X temporal == base; all-X environmental == temporal except v3.1 with S:C), all 5,184 base vectors through the environmental decoder with X omitted and spelled out, all 73,629 v2 vectors, and the v2 Target Distribution None slice (4,000,000 distinct seeded points quick, all 28,273,536 thorough).",
          "Relations between library results only; no reference model is trusted.",
          "DESIGN.md section 6, C13"),
 }
